@@ -203,3 +203,87 @@ Proof. intros H; simpl. destruct (Rlt_dec p1 p); [reflexivity | contradiction]. 
 Lemma sp_from_step_ge p0 l0 p1 l1 rest p : p <= p1 ->
   sp_from p0 l0 ((p1, l1) :: rest) p = last_seg p0 l0 (lin p0 l0 p1 l1 p) p.
 Proof. intros H; simpl. destruct (Rlt_dec p1 p); [lra | reflexivity]. Qed.
+
+(* ------------------------------------------------------------------ the CALL with its range guard
+   pointisotherm.py (after fix 797ce8e):
+       if interp_fill is None and pressure > pressures.max(): raise CalculationError(...)
+   The guard reads the rows and the argument only (no cached interpolator): the outcome of a call without interp_fill is a
+   FUNCTION of (rows, p) - the same on a fresh isotherm and on one that has answered other calls before (the harness runs both). *)
+Inductive outcome : Type := Value (v : R) | CalculationError.
+
+Fixpoint max_from (p0 : R) (rest : list row) : R :=
+  match rest with [] => p0 | (p1, _) :: r => max_from (Rmax p0 p1) r end.
+(* pressures.max() *)
+Definition max_pressure (rows : list row) : R :=
+  match rows with [] => 0 | (p1, _) :: r => max_from p1 r end.
+
+Definition sp_point_at (rows : list row) (p : R) : outcome :=
+  if Rlt_dec (max_pressure rows) p then CalculationError else Value (sp_point rows p).
+
+Lemma max_from_increasing : forall rest p0, increasing_from p0 rest -> max_from p0 rest = last_from p0 rest.
+Proof.
+  induction rest as [|[p1 l1] rest IH]; intros p0 H; simpl in *; [reflexivity|].
+  destruct H as [H01 H]. rewrite Rmax_right by lra. apply IH; exact H.
+Qed.
+
+Lemma max_pressure_increasing rows : increasing rows -> max_pressure rows = last_pressure rows.
+Proof. destruct rows as [|[p1 l1] rest]; simpl; [tauto|]. intros [_ H]. apply max_from_increasing; exact H. Qed.
+
+(* above the highest data pressure: always refused with CalculationError *)
+Lemma sp_point_at_above rows p : increasing rows -> last_pressure rows < p -> sp_point_at rows p = CalculationError.
+Proof.
+  intros Hinc Hp. unfold sp_point_at. rewrite (max_pressure_increasing rows Hinc).
+  destruct (Rlt_dec (last_pressure rows) p); [reflexivity | contradiction].
+Qed.
+
+(* up to and including the highest data pressure: always answered, with the value of sp_point *)
+Lemma sp_point_at_value rows p : increasing rows -> p <= last_pressure rows -> sp_point_at rows p = Value (sp_point rows p).
+Proof.
+  intros Hinc Hp. unfold sp_point_at. rewrite (max_pressure_increasing rows Hinc).
+  destruct (Rlt_dec (last_pressure rows) p); [lra | reflexivity].
+Qed.
+
+(* the call answers exactly on [.., highest pressure] *)
+Lemma sp_point_at_answers_iff rows p : increasing rows ->
+  (exists v, sp_point_at rows p = Value v) <-> p <= last_pressure rows.
+Proof.
+  intros Hinc. split.
+  - intros [v Hv]. destruct (Rle_lt_dec p (last_pressure rows)) as [H|H]; [exact H|].
+    rewrite (sp_point_at_above rows p Hinc H) in Hv. discriminate.
+  - intros H. exists (sp_point rows p). apply sp_point_at_value; assumption.
+Qed.
+
+(* MAIN THEOREM for the call: whenever 0 <= p, the call either refuses (exactly when p is above the data) or returns
+   the integral from 0 to p of interpolant(x)/x *)
+Theorem sp_point_at_spec rows p : increasing rows -> 0 <= p ->
+  (last_pressure rows < p /\ sp_point_at rows p = CalculationError) \/
+  (p <= last_pressure rows /\ exists v, sp_point_at rows p = Value v /\ is_RInt (fun x => interp rows x / x) 0 p v).
+Proof.
+  intros Hinc Hp. destruct (Rle_lt_dec p (last_pressure rows)) as [H|H].
+  - right. split; [exact H|]. exists (sp_point rows p). split; [apply sp_point_at_value; assumption|].
+    apply sp_point_is_RInt. split; [exact Hinc | lra].
+  - left. split; [exact H | apply sp_point_at_above; assumption].
+Qed.
+
+(* below (or at) the first data point: ALWAYS the Henry value - never refused *)
+Lemma last_from_ge : forall rest p0, increasing_from p0 rest -> p0 <= last_from p0 rest.
+Proof.
+  induction rest as [|[p1 l1] rest IH]; intros p0 H; simpl in *; [lra|].
+  destruct H as [H01 H]. specialize (IH p1 H). lra.
+Qed.
+
+Lemma sp_point_at_below_first p1 l1 rest p : increasing ((p1, l1) :: rest) -> p <= p1 ->
+  sp_point_at ((p1, l1) :: rest) p = Value (l1 / p1 * p).
+Proof.
+  intros Hinc Hp. rewrite sp_point_at_value; [rewrite sp_point_below_first by exact Hp; reflexivity | exact Hinc |].
+  simpl in *. destruct Hinc as [_ H]. pose proof (last_from_ge rest p1 H). lra.
+Qed.
+
+Example sp_point_at_example :
+  sp_point_at [(1, 2); (2, 3)] (5 / 2) = CalculationError /\ sp_point_at [(1, 2); (2, 3)] (1 / 2) = Value (2 / 1 * (1 / 2)).
+Proof.
+  assert (Hinc : increasing [(1, 2); (2, 3)]) by (simpl; lra).
+  split.
+  - apply sp_point_at_above; [exact Hinc | simpl; lra].
+  - apply sp_point_at_below_first; [exact Hinc | lra].
+Qed.
